@@ -48,6 +48,22 @@ TEXT = {
             "seeded history simulation with element-relocation monitor"),
 }
 
+_B = "Further batches of the same oracle: capacity 40 (size thresholds), "
+EXTRA = {
+    "C01": _B + "128-byte elements (build dbg-big), byte buffers through the generic deque operations (io scenario), zero-sized elements at extreme capacities (zst scenario). ",
+    "C03": _B + "128-byte elements, zero-sized elements with a drop counter. ",
+    "C05": _B + "128-byte elements. ",
+    "C06": _B + "128-byte elements, a panicking by-reference iterator on byte buffers (Extend<&u8>). ",
+    "C07": _B[:-2] + ". ",
+    "C08": _B[:-2] + ". ",
+    "C09": _B + "128-byte elements, byte buffers, zero-sized elements. ",
+    "C10": _B + "128-byte elements, zero-sized elements with a drop counter. ",
+    "C11": "Further batches: byte buffers and zero-sized elements at extreme capacities. ",
+    "C12": _B + "128-byte elements, zero-sized elements. ",
+    "C13": _B + "byte buffers compared with a freshly built twin after every step, zero-sized elements with a never-equal partner type, NaN-like (unordered) element values. ",
+    "C20": _B + "128-byte elements, byte buffers (identity = value while stamps are distinct). ",
+}
+
 NA = [
     {"property_id": "C15", "reason": "compile-time contracts (variance, borrows, const, auto traits): decided by rustc accepting/rejecting witness programs; nothing executes, so there is no schedule, fault or history for a simulator to control"},
 ]
@@ -68,7 +84,7 @@ def main():
             "replay_cmd_template": "./check replay {path}",
             "engine": "cbsim",
             "level_claimed": {"category": LEVELS[pid], "text": text, "design_ref": "DESIGN.md " + ref},
-            "level_note": "Trusted base: the reference model and ledger in sim/src (a few hundred lines), rustc/std, the guarded hook (two accessors). Sampling, not proof; capacities <= 11 for tracked elements; 64-bit Linux only.",
+            "level_note": EXTRA.get(pid, "") + "Trusted base: the reference model and ledger in sim/src (a few hundred lines), rustc/std, the guarded hook (two accessors). Sampling, not proof; capacities <= 11 for tracked elements; 64-bit Linux only.",
             "technique": tech,
         }
         checks.append(c)
